@@ -44,7 +44,7 @@ func runCase(mat *material, c *Case, trace bool) (res *Result) {
 			m.stats["op.enforce.applied"] > 0 || m.stats["fork"] > 0 || m.stats["vote.quorum"] > 0
 	}()
 	before := take(w.tree)
-	if f := m.audit(w, -1, nil, nil, before, before, 0, w.tree.HighQC); f != nil {
+	if f := m.audit(w, -1, nil, false, nil, before, before, 0, w.tree.HighQC); f != nil {
 		res.F = f
 		return
 	}
@@ -131,7 +131,7 @@ func runCase(mat *material, c *Case, trace bool) (res *Result) {
 				m.stats["fork"]++
 			}
 		}
-		f := m.audit(w, i, op, callErr, before, after, rootBefore, highBefore)
+		f := m.audit(w, i, op, newly, callErr, before, after, rootBefore, highBefore)
 		if trace {
 			e := ""
 			if callErr != nil {
